@@ -1526,6 +1526,24 @@ func walCacheOps(w *walInfo, f *ssa.Function, op string) []cacheOp {
 		if h == nil || !modLocal(h) || len(h.Blocks) == 0 {
 			return
 		}
+		// helper(): a small accessor that performs op under a key it names itself (cachedSnapshot())
+		if h != f && recvTypeName(h) == recvTypeName(f) {
+			eachInstr(h, func(j ssa.Instruction) {
+				c2 := asCall(j)
+				if c2 == nil {
+					return
+				}
+				id2 := callID(c2)
+				if !(id2.Recv == "Map" && id2.Pkg == "sync" && id2.Name == op) {
+					return
+				}
+				for _, b := range c2.Args {
+					if g := globalArg(b); g != nil {
+						out = append(out, cacheOp{key: g, ins: i})
+					}
+				}
+			})
+		}
 		for ai, a := range cc.Args {
 			g := globalArg(a)
 			if g == nil || ai >= len(h.Params) {
@@ -2199,6 +2217,63 @@ func snapshotCarriesMembership(c *Ctx, r *Report, rule string) {
 					}
 				}
 			}
+		}
+		// … or in a validation helper that is handed the parameter, whose error verdict is tested here and which returns nil
+		// only on the non-nil side of its own test of it
+		if test == nil {
+			eachInstr(f, func(i ssa.Instruction) {
+				cl, ok := i.(*ssa.Call)
+				if !ok || cl.Call.StaticCallee() == nil || !modLocal(cl.Call.StaticCallee()) || len(cl.Call.StaticCallee().Blocks) == 0 {
+					return
+				}
+				h := cl.Call.StaticCallee()
+				ai := -1
+				for k, a := range cl.Call.Args {
+					if a == ssa.Value(cs) {
+						ai = k
+					}
+				}
+				if ai < 0 || ai >= len(h.Params) {
+					return
+				}
+				// the helper's error result, tested in f
+				var errV ssa.Value = cl
+				if h.Signature.Results().Len() > 1 {
+					errV = nil
+					for _, u := range *cl.Referrers() {
+						if ex, isEx := u.(*ssa.Extract); isEx && isErrorType(ex.Type()) {
+							errV = ex
+						}
+					}
+				}
+				if errV == nil {
+					return
+				}
+				ifi, errPol := errTestOf(f, errV)
+				if ifi == nil {
+					return
+				}
+				// inside the helper: every nil-error return is on the non-nil side of a test of the parameter
+				okH := false
+				for _, hi := range allIfs(h) {
+					b, isB := hi.Cond.(*ssa.BinOp)
+					if !isB || (b.Op != token.EQL && b.Op != token.NEQ) || strip(b.X) != ssa.Value(h.Params[ai]) || !isNilConst(b.Y) {
+						continue
+					}
+					all := true
+					for _, rt := range returnsOf(h) {
+						if isNilConst(rt.Results[len(rt.Results)-1]) && !guardedBy(rt.Block(), hi, b.Op == token.NEQ) {
+							all = false
+						}
+					}
+					if all {
+						okH = true
+					}
+				}
+				if okH {
+					test, nonNilOnTrue = ifi, !errPol
+				}
+			})
 		}
 		k := 0
 		for _, rt := range returnsOf(f) {
